@@ -46,8 +46,12 @@ CLAIMED = {
          "that cancel in save-then-load); fixed-width writers and readers agree column by column (PDB ATOM/CRYST1, mdcrd, rst7, gro); token orders, the GRO "
          "box permutation, DCD/DTR cell fields and NetCDF/HDF5 names agree; restart writers index every per-frame field by the loop variable. "
          "Numerical equality within precision is not decided.", _NOTE, "DESIGN.md §4 C01"),
+ "C11": ("shape analysis of the re-imaging kernels through the Cython desugarer (lattice-term form of every position update), effect analysis (cell never written), copy-unless-inplace and sorted-bonds checks on the callers",
+         "Every term that reaches a position update in make_whole / wrap_mols / image_frame is shown to be cell[r,k] * rounding(v[r]/cell[r,r]) with rows "
+         "processed c,b,a, position stores are old +/- accumulator, no kernel writes the cell, and with inplace=False the kernels act on a deep copy. "
+         "That every bonded pair ends at its minimum-image separation is numerical and not decided.", _NOTE, "DESIGN.md §4 C11"),
 }
 _PENDING = "check not built yet in this round (design in DESIGN.md §4); will be claimed when its rules run clean"
-NA = {k: _PENDING for k in ["C05","C06","C07","C08","C09","C10","C11","C13","C14","C15"]}
+NA = {k: _PENDING for k in ["C05","C06","C07","C08","C09","C10","C13","C14","C15"]}
 NA["C16"] = ("every clause is numerical equality of computed arrays with closed-form expressions; no structural "
              "necessary condition covers more than one of the fifteen functions (DESIGN.md §5)")
